@@ -95,12 +95,16 @@ func (e *Engine) run(init *State, base int) []*State {
 					s.dead, s.done = true, true
 				}
 			}
-			e.paths++
+			if s.spec > 0 {
+				e.specPaths++
+			} else {
+				e.paths++
+			}
 			if !s.dead {
 				fin = append(fin, s)
 			}
 		}()
-		if e.paths > 20000 {
+		if e.paths-e.pathBase > 20000 || e.specPaths > 5000000 {
 			panic("path explosion")
 		}
 	}
@@ -108,8 +112,60 @@ func (e *Engine) run(init *State, base int) []*State {
 }
 
 // evalPure runs fn on args from state s and returns the merged boolean/scalar result.
+type pureMemo struct {
+	res     Val
+	defs    []string
+	assumes []Term
+}
+
+// evalPure runs fn on args from state s and returns the merged boolean/scalar result. Calls of heap-free spec
+// functions on scalar arguments are memoised (the same byte is classified by specB64Inv on every path).
 func (e *Engine) evalPure(s *State, fn *ssa.Function, args []Val, bind []Val) Val {
+	key := ""
+	if len(bind) == 0 && len(args) > 0 && s.quant == 0 {
+		key = fn.String()
+		args = append([]Val(nil), args...)
+		for i, a := range args {
+			t, ok := a.(Term)
+			if !ok {
+				key = ""
+				break
+			}
+			t = s.res(t) // constants learned on this path go into the key; nothing else of the path may leak in
+			args[i] = t
+			key += "|" + t.Sort + ":" + t.S
+		}
+	}
+	if key != "" {
+		if m, ok := e.pure[key]; ok {
+			s.defs = append(s.defs, m.defs...)
+			for _, a := range m.assumes {
+				e.assume(s, a)
+			}
+			return m.res
+		}
+	}
+	touch0 := e.heapTouch
+	d0, n0 := len(s.defs), len(s.pc)
+	r := e.evalPure2(s, fn, args, bind, key != "")
+	if key != "" && e.heapTouch == touch0 {
+		if e.pure == nil {
+			e.pure = map[string]*pureMemo{}
+		}
+		m := &pureMemo{res: r, defs: append([]string(nil), s.defs[d0:]...)}
+		for i := n0; i < len(s.pc); i++ {
+			m.assumes = append(m.assumes, s.pc[i])
+		}
+		e.pure[key] = m
+	}
+	return r
+}
+
+func (e *Engine) evalPure2(s *State, fn *ssa.Function, args []Val, bind []Val, pathFree bool) Val {
 	sub := s.clone()
+	if pathFree {
+		sub.subst = map[string]*big.Int{} // a memoised result must not depend on what this path has learned
+	}
 	sub.frames = []*Frame{e.newFrame(sub, fn, args, bind, nil, false)}
 	sub.ret, sub.done, sub.dead = nil, false, false
 	sub.spec++
@@ -269,32 +325,7 @@ func (e *Engine) step(s *State) []*State {
 			}
 			f.env[x] = r
 		case StrV:
-			bv := b.(StrV)
-			if av.Const == nil && bv.Const == nil {
-				r := eq(av.T, bv.T)
-				if x.Op == token.NEQ {
-					r = not(r)
-				} else if x.Op != token.EQL {
-					panic("symbolic string op")
-				}
-				f.env[x] = r
-				break
-			}
-			if av.Const != nil && bv.Const != nil {
-				switch x.Op {
-				case token.EQL:
-					f.env[x] = boolT(*av.Const == *bv.Const)
-				case token.NEQ:
-					f.env[x] = boolT(*av.Const != *bv.Const)
-				case token.ADD:
-					c := *av.Const + *bv.Const
-					f.env[x] = StrV{Const: &c}
-				default:
-					panic("string op")
-				}
-			} else {
-				panic("symbolic string op")
-			}
+			f.env[x] = e.strBinop(s, x.Op, av, b.(StrV))
 		case StructV:
 			r := e.structEq(s, av, b.(StructV))
 			if x.Op == token.NEQ {
@@ -308,7 +339,22 @@ func (e *Engine) step(s *State) []*State {
 		v := e.get(s, f, x.X)
 		switch vv := v.(type) {
 		case Term:
+			if b, ok := x.Type().Underlying().(*types.Basic); ok && b.Kind() == types.String {
+				panic("conversion of an integer to string")
+			}
 			f.env[x] = e.name(s, e.convert(s, vv, x.X.Type(), x.Type()))
+		case StrV: // []byte(s)
+			if sl, ok := x.Type().Underlying().(*types.Slice); ok && elemIsByte(sl.Elem()) {
+				f.env[x] = e.strToBytes(s, vv)
+			} else {
+				panic("conversion of string to " + x.Type().String())
+			}
+		case SliceV: // string(b)
+			if b, ok := x.Type().Underlying().(*types.Basic); ok && b.Kind() == types.String && elemIsByte(vv.Elem) {
+				f.env[x] = e.bytesToStr(s, vv)
+			} else {
+				panic("conversion of slice to " + x.Type().String())
+			}
 		default:
 			panic(fmt.Sprintf("convert of %T to %s", v, x.Type()))
 		}
@@ -345,13 +391,8 @@ func (e *Engine) step(s *State) []*State {
 			e.oblig(s, "safe.index", and(ile(intT(0), idx), ilt(idx, intT(b.N))))
 			f.env[x] = e.name(s, sel(b.A, idx, elemSort(b.Elem)))
 		case StrV:
-			if b.Const != nil && idx.C != nil {
-				i := idx.C.Int64()
-				e.oblig(s, "safe.index", boolT(i >= 0 && i < int64(len(*b.Const))))
-				f.env[x] = bvT(big.NewInt(int64((*b.Const)[i])), 8)
-			} else {
-				panic("symbolic string index")
-			}
+			e.oblig(s, "safe.index", and(ile(intT(0), idx), ilt(idx, e.strLen(s, b))))
+			f.env[x] = e.name(s, e.strAt(s, b, idx))
 		default:
 			panic(fmt.Sprintf("index on %T", base))
 		}
@@ -390,7 +431,7 @@ func (e *Engine) step(s *State) []*State {
 		switch m := e.get(s, f, x.X).(type) {
 		case MapV:
 			e.oblig(s, "safe.nilmap-read-ok", boolT(true))
-			k := e.keyTerm(e.get(s, f, x.Index))
+			k := e.keyTerm(s, e.get(s, f, x.Index))
 			pres := e.mread(s, m, "p", "Bool", k)
 			val := e.mgetVal(s, m, k)
 			if x.CommaOk {
@@ -404,7 +445,7 @@ func (e *Engine) step(s *State) []*State {
 	case *ssa.MapUpdate:
 		m := e.get(s, f, x.Map).(MapV)
 		e.oblig(s, "safe.nilmap", not(eq(m.Ref, refT(0))))
-		k := e.keyTerm(e.get(s, f, x.Key))
+		k := e.keyTerm(s, e.get(s, f, x.Key))
 		pres := e.mread(s, m, "p", "Bool", k)
 		e.msetCard(s, m, e.name(s, ite(pres, e.mcard(s, m), iadd(e.mcard(s, m), intT(1)))))
 		e.mwrite(s, m, "p", "Bool", k, boolT(true))
@@ -588,13 +629,6 @@ func (e *Engine) structEq(s *State, a, b StructV) Term {
 	return e.name(s, and(parts...))
 }
 
-func (e *Engine) strTerm(s *State, v StrV) Term {
-	if v.Const != nil {
-		return e.strConst(s, *v.Const)
-	}
-	return v.T
-}
-
 // typeAssert models x.(T) and x.(T) with comma-ok. A boxed value of known dynamic type is decided statically;
 // an interface value of unknown origin carries an uninterpreted type tag typeof(ref).
 func (e *Engine) typeAssert(s *State, iv IfaceV, x *ssa.TypeAssert) Val {
@@ -694,8 +728,24 @@ func (e *Engine) toInt(s *State, t Term, ty types.Type) Term {
 	return e.name(s, e.convert(s, t, ty, types.Typ[types.Int]))
 }
 
+func elemIsByte(t types.Type) bool {
+	b, ok := t.Underlying().(*types.Basic)
+	return ok && b.Kind() == types.Uint8
+}
+
 func (e *Engine) slice(s *State, f *Frame, x *ssa.Slice) Val {
 	base := e.get(s, f, x.X)
+	if sv, ok := base.(StrV); ok {
+		lo, hi := intT(0), e.strLen(s, sv)
+		if x.Low != nil {
+			lo = s.res(e.toInt(s, e.get(s, f, x.Low).(Term), x.Low.Type()))
+		}
+		if x.High != nil {
+			hi = s.res(e.toInt(s, e.get(s, f, x.High).(Term), x.High.Type()))
+		}
+		e.oblig(s, "safe.slice", and(ile(intT(0), lo), ile(lo, hi), ile(hi, e.strLen(s, sv))))
+		return e.strSlice(s, sv, lo, hi)
+	}
 	var ref, off, ln, cp Term
 	var et types.Type
 	switch b := base.(type) {
@@ -902,11 +952,7 @@ func (e *Engine) call(s *State, f *Frame, cc *ssa.CallCommon, x ssa.Value, defer
 			case SliceV:
 				f.env[x] = v.Len
 			case StrV:
-				if v.Const != nil {
-					f.env[x] = intT(int64(len(*v.Const)))
-				} else {
-					panic("len of symbolic string")
-				}
+				f.env[x] = e.strLen(s, v)
 			case ArrV:
 				f.env[x] = intT(v.N)
 			case MapV:
@@ -924,7 +970,7 @@ func (e *Engine) call(s *State, f *Frame, cc *ssa.CallCommon, x ssa.Value, defer
 			f.env[x] = e.copyB(s, args[0].(SliceV), args[1])
 		case "delete":
 			m := args[0].(MapV)
-			k := e.keyTerm(args[1])
+			k := e.keyTerm(s, args[1])
 			pres := e.mread(s, m, "p", "Bool", k)
 			e.msetCard(s, m, e.name(s, ite(pres, isub(e.mcard(s, m), intT(1)), e.mcard(s, m))))
 			e.mwrite(s, m, "p", "Bool", k, boolT(false))
@@ -1061,12 +1107,12 @@ func (e *Engine) callFn(s *State, f *Frame, fn *ssa.Function, args []Val, bind [
 		found := false
 		for _, it := range s.iters {
 			if sameTerm(it.M.Ref, m.Ref) {
-				f.env[x] = e.name(s, sel(it.Vis, e.keyTerm(args[1]), "Bool"))
+				f.env[x] = e.name(s, sel(it.Vis, e.keyTerm(s, args[1]), "Bool"))
 				return true
 			}
 			if mapTag(it.M) == mapTag(m) {
 				found = true
-				res = ite(eq(it.M.Ref, m.Ref), sel(it.Vis, e.keyTerm(args[1]), "Bool"), res)
+				res = ite(eq(it.M.Ref, m.Ref), sel(it.Vis, e.keyTerm(s, args[1]), "Bool"), res)
 			}
 		}
 		if !found {
@@ -1090,7 +1136,7 @@ func (e *Engine) callFn(s *State, f *Frame, fn *ssa.Function, args []Val, bind [
 		f.env[x] = e.name(s, Term{S: fmt.Sprintf("(forall ((%s %s)) %s)", bv, ks, body.S), Sort: "Bool"})
 		return true
 	case name == "vsHas": // vsHas(m, k): key present, no value needed
-		f.env[x] = e.mread(s, args[0].(MapV), "p", "Bool", e.keyTerm(args[1]))
+		f.env[x] = e.mread(s, args[0].(MapV), "p", "Bool", e.keyTerm(s, args[1]))
 		return true
 	case name == "vsForall" || name == "vsExists":
 		lo, hi, cl := s.res(args[0].(Term)), s.res(args[1].(Term)), args[2].(FuncV)
@@ -1099,7 +1145,7 @@ func (e *Engine) callFn(s *State, f *Frame, fn *ssa.Function, args []Val, bind [
 	case strings.HasPrefix(fn.String(), "sync.") || strings.HasPrefix(fn.String(), "(*sync."):
 		return true
 	}
-	if e.opaque[fn.String()] {
+	if e.opaque[fn.String()] || e.opaqueT[fn.String()] {
 		var parts []Term
 		for _, a := range args {
 			switch v := a.(type) {
@@ -1115,6 +1161,8 @@ func (e *Engine) callFn(s *State, f *Frame, fn *ssa.Function, args []Val, bind [
 				} else {
 					parts = append(parts, v.T)
 				}
+			case ArrV:
+				parts = append(parts, v.A)
 			default:
 				panic(fmt.Sprintf("opaque arg %T", a))
 			}
@@ -1143,7 +1191,26 @@ func (e *Engine) callFn(s *State, f *Frame, fn *ssa.Function, args []Val, bind [
 		fn.Pkg.Build() // bodies of dependencies are built on demand
 	}
 	if len(fn.Blocks) == 0 {
-		panic("call to function without body/stub: " + fn.String())
+		// default external rule: results unconstrained, the referents of pointer and slice arguments havocked
+		// (unless the callee is known not to write them), effect recorded in the ghost trace
+		if !readOnlyExternal(fn.String()) {
+			for _, a := range args {
+				switch v := a.(type) {
+				case SliceV:
+					if _, ok := sortOf(v.Elem); ok {
+						e.havocArg(s, v)
+					}
+				case PtrV:
+					if !v.Nil && (v.Kind == "hcell" || v.Kind == "arr") {
+						e.havocPtr(s, v)
+					}
+				}
+			}
+		}
+		if r := e.unknownCall(s, fn.String(), fn.Signature, nil, args); r != nil {
+			f.env[x] = r
+		}
+		return true
 	}
 	if s.spec > 0 || strings.HasPrefix(name, "spec") || strings.HasPrefix(name, "vs") {
 		f.env[x] = e.evalPure(s, fn, args, bind)
@@ -1166,7 +1233,7 @@ func (e *Engine) callFn(s *State, f *Frame, fn *ssa.Function, args []Val, bind [
 }
 
 func (e *Engine) quant(s *State, forall bool, lo, hi Term, cl FuncV) Term {
-	if lo.C != nil && hi.C != nil && new(big.Int).Sub(hi.C, lo.C).Int64() <= 80 {
+	if lo.C != nil && hi.C != nil && new(big.Int).Sub(hi.C, lo.C).Int64() <= 256 {
 		var parts []Term
 		for i := lo.C.Int64(); i < hi.C.Int64(); i++ {
 			parts = append(parts, e.evalPure(s, cl.Fn, []Val{intT(i)}, cl.Bind).(Term))
@@ -1346,6 +1413,9 @@ func (e *Engine) runPar(init *State, base int) []*State {
 					}
 				}()
 				e.paths++
+				if e.paths-e.pathBase > 20000 && failure == nil {
+					failure = "path explosion"
+				}
 				if !s.dead {
 					fin = append(fin, s)
 				}
@@ -1373,4 +1443,27 @@ func inlinablePkg(path string) bool {
 		return true
 	}
 	return false
+}
+
+// readOnlyExternal lists external callees that do not write through their arguments (documented behaviour).
+func readOnlyExternal(name string) bool {
+	for _, p := range []string{"fmt.", "errors.", "strconv.", "strings.", "bytes.Equal", "bytes.Compare", "bytes.HasPrefix", "time.", "(time.", "(*time.", "math.", "unicode", "sort.Search", "encoding/base64.", "(*encoding/base64.", "regexp.", "(*regexp.", "github.com/emitter-io/emitter/internal/provider/logging."} {
+		if strings.HasPrefix(name, p) {
+			return true
+		}
+	}
+	return false
+}
+
+func (e *Engine) havocPtr(s *State, p PtrV) {
+	switch p.Kind {
+	case "hcell":
+		e.storeHeapVal(s, "C", p.Ref, p.Elem, e.symbolic(s, "hv", p.Elem))
+	case "arr":
+		so := elemSort(p.Elem)
+		nm := "M_" + sortTag(so)
+		m := e.heapArr(s, nm, refArrSort(arrSort(so)))
+		na := e.declare(s, "hv", arrSort(so))
+		e.hset(s, nm, e.name(s, sto(m, p.Ref, na)), HWrite{Ref: p.Ref, Val: na, Whole: true})
+	}
 }
